@@ -772,9 +772,87 @@ Proof.
       split; [lia|]. split.
       * replace (-1 * a') with (- a') by ring. replace (-1 * b') with (- b') by ring.
         rewrite Z.gcd_opp_l, Z.gcd_opp_r. exact Hcop.
-      * rewrite Ha at 2. rewrite Hb' at 1. ring.
+      * clearbody g. subst a b. ring.
     + apply Z.ltb_ge in S. assert (0 < b') by nia.
       split; [lia|]. split.
       * rewrite !Z.mul_1_l. exact Hcop.
-      * rewrite Ha at 2. rewrite Hb' at 1. ring.
+      * clearbody g. subst a b. ring.
+Qed.
+
+(* ------------------------------------------------------------------ Garner (crt_multi.go RecombineSerial) *)
+
+(* one mixed-radix step: x < prod known modulo prod, extended to prod * p *)
+Lemma garner_step p prod inv x r :
+  0 < p -> 0 < prod -> modinv (prod mod p) p = Some inv -> 0 <= x < prod ->
+  let x' := x + ((((r - x) mod p) * inv) mod p) * prod in
+  0 <= x' < prod * p /\ x' mod p = r mod p /\ x' mod prod = x.
+Proof.
+  intros Hp Hq Hinv Hx. cbv zeta.
+  apply modinv_sound in Hinv; [|exact Hp]. destruct Hinv as [Hi Hinv].
+  rewrite Z.mul_mod_idemp_r in Hinv by lia.
+  set (c := (((r - x) mod p) * inv) mod p).
+  assert (Hc : 0 <= c < p) by (apply Z.mod_pos_bound; exact Hp).
+  split; [nia|]. split.
+  - assert (Hd : (p | x + c * prod - r)).
+    { pose proof (Z.div_mod (r - x) p ltac:(lia)) as E1.
+      pose proof (Z.div_mod (((r - x) mod p) * inv) p ltac:(lia)) as E2.
+      pose proof (Z.div_mod (inv * prod) p ltac:(lia)) as E3. rewrite Hinv in E3.
+      fold c in E2.
+      remember ((r - x) mod p) as a eqn:Ea.
+      remember ((r - x) / p) as k1 eqn:Ek1.
+      remember (a * inv / p) as k2 eqn:Ek2.
+      remember (inv * prod / p) as k3 eqn:Ek3.
+      remember (r - x) as dm eqn:Edm.
+      exists (a * k3 - k2 * prod - k1).
+      assert (Hc' : c = a * inv - p * k2) by lia.
+      rewrite Hc'.
+      replace (x + (a * inv - p * k2) * prod - r) with (a * (inv * prod) - p * k2 * prod - dm) by (subst dm; ring).
+      rewrite E3, E1. ring. }
+    destruct Hd as [k Hk].
+    replace (x + c * prod) with (r + k * p) by lia.
+    apply Z.mod_add. lia.
+  - rewrite Z.mod_add by lia. apply Z.mod_small. exact Hx.
+Qed.
+
+Lemma mod_mod_divide a n m : 0 < n -> 0 < m -> (a mod (n * m)) mod n = a mod n.
+Proof.
+  intros Hn Hm. symmetry. apply Zmod_div_mod; [lia|nia|]. exists m. ring.
+Qed.
+
+Lemma garner_correct : forall ps rs x prod y,
+  garner ps rs x prod = Some y ->
+  0 < prod -> 0 <= x < prod -> Forall (fun p => 0 < p) ps ->
+  0 <= y < prod * prodl ps /\ y mod prod = x /\ Forall2 (fun p r => y mod p = r mod p) ps rs.
+Proof.
+  induction ps as [|p ps IH]; intros rs x prod y H Hprod Hx Hps.
+  - destruct rs; [|discriminate]. cbn in H. injection H as <-.
+    cbn [prodl fold_right]. split; [lia|]. split; [apply Z.mod_small; exact Hx|constructor].
+  - destruct rs as [|r rs]; [discriminate|]. cbn [garner] in H.
+    destruct (modinv (prod mod p) p) as [inv|] eqn:Hinv; [|discriminate].
+    inversion Hps as [|? ? Hp Hps']; subst.
+    destruct (garner_step p prod inv x r Hp Hprod Hinv Hx) as (Hb & Emp & Emq).
+    apply IH in H; [|nia|exact Hb|exact Hps'].
+    destruct H as (Hy & Ey & Hrest).
+    split.
+    { cbn [prodl fold_right]. fold (prodl ps). replace (prod * (p * prodl ps)) with (prod * p * prodl ps) by ring. exact Hy. }
+    split.
+    { rewrite <- (mod_mod_divide y prod p Hprod Hp). rewrite Ey. exact Emq. }
+    constructor; [|exact Hrest].
+    rewrite <- (mod_mod_divide y p prod Hp Hprod). rewrite (Z.mul_comm p prod), Ey. exact Emp.
+Qed.
+
+(* RecombineSerial: for pairwise coprime factors (no inverse is refused) and a
+   reduced first residue the result is below the product and has every residue *)
+Lemma crt_multi_serial_correct ps rs y :
+  crt_multi_serial ps rs = Some y -> Forall (fun p => 0 < p) ps ->
+  (match ps, rs with p0 :: _, r0 :: _ => 0 <= r0 < p0 | _, _ => True end) ->
+  0 <= y < prodl ps /\ Forall2 (fun p r => y mod p = r mod p) ps rs.
+Proof.
+  intros H Hps H0. unfold crt_multi_serial in H.
+  destruct ps as [|p0 ps]; [discriminate|]. destruct rs as [|r0 rs]; [discriminate|].
+  inversion Hps as [|? ? Hp0 Hps']; subst.
+  apply garner_correct in H; [|exact Hp0|exact H0|exact Hps'].
+  destruct H as (Hy & Ey & Hrest).
+  split; [exact Hy|]. constructor; [|exact Hrest].
+  rewrite Ey. symmetry. apply Z.mod_small. exact H0.
 Qed.
